@@ -24,6 +24,7 @@ fn table(id: &str) -> Option<(RunFn, CheckFn)> {
         "C01" => Some((props::c01::run, props::c01::check_case)),
         "C02" => Some((props::c02::run, props::c02::check_case)),
         "C03" => Some((props::c03::run, props::c03::check_case)),
+        "C04" => Some((props::c04::run, props::c04::check_case)),
         "C05" => Some((props::c05::run, props::c05::check_case)),
         "C06" => Some((props::c06::run, props::c06::check_case)),
         _ => None,
